@@ -12,46 +12,106 @@ Section Failure.
 Variable lower : str -> str.
 Variable world : list pspec.
 
-(* decidable: the constraints of l ++ [c] are acyclic (the fixed-oracle run accepts), or the name is taken *)
-Definition accepts (l : list cb) (c : cb) : bool :=
-  match get_callback lower l (cname c) with
-  | Some _ => true
-  | None => match snd (add_callback lower id_oracle l c) with Ok _ => true | Raise _ => false end
-  end.
-
-Definition load_dom (s : st) (n : str) : bool :=
-  match find_spec lower world n with
-  | None => true
-  | Some p => accepts (s_cbs s) (mk_cb (s_next s) p)
-  end.
-
+(* a `load` that does not answer success leaves the callbacks list exactly as it was *)
 Lemma failed_load_keeps s n imp initf o :
-  perm_oracle o -> wf_st lower s -> load_dom s n = true ->
+  perm_oracle o -> wf_st lower s ->
   forall s' r, owner_load lower world s n imp initf o = (s', r) -> r <> Ok 0 ->
   s_cbs s' = s_cbs s.
 Proof.
-  intros Ho Hw Hd s' r E Hr. unfold owner_load in E.
+  intros Ho Hw s' r E Hr. unfold owner_load in E.
   destruct (get_callback lower (s_cbs s) n); [inversion E; reflexivity|].
-  unfold load_dom, load_plugin_module in *.
-  destruct (find_spec lower world n) as [p|]; [|inversion E; reflexivity].
-  destruct imp as [|[q|q|]]; try (inversion E; reflexivity).
+  destruct (load_plugin_module lower world n imp) as [p| |]; try (inversion E; reflexivity).
   unfold load_plugin_class in E. destruct initf; [inversion E; reflexivity|].
-  cbn [s_cbs s_next s_unimp] in E.
   set (c := mk_cb (s_next s) p) in *.
   assert (Hnd : NoDup (ids (s_cbs s ++ [c]))) by (apply (wf_nd_snoc lower (s_next s)); [exact Hw|reflexivity]).
   pose proof (add_callback_spec lower o Ho (s_cbs s) c Hnd) as S. cbv zeta in S.
-  pose proof (add_callback_accept_indep lower id_oracle o (s_cbs s) c id_oracle_perm Ho Hnd) as Hind.
   destruct (add_callback lower o (s_cbs s) c) as [l' [u|e]]; inversion E; subst; cbn [bind s_cbs] in *.
   - exfalso. apply Hr. reflexivity.
-  - destruct S as [_ [[_ ->]|[Hg ->]]]; [reflexivity|]. exfalso.
-    unfold accepts in Hd. rewrite Hg in Hd.
-    destruct (snd (add_callback lower id_oracle (s_cbs s) c)) as [[]|e'] eqn:Ei; [|discriminate].
-    specialize (Hind eq_refl). discriminate.
+  - destruct S as [_ ->]. reflexivity.
+Qed.
+
+(* ---- reload whose import fails (ImportError or anything else): the plugin is put back ---- *)
+Lemma filter_all_false {A} (p : A -> bool) l : (forall x, In x l -> p x = false) -> filter p l = [].
+Proof.
+  induction l as [|a l IH]; simpl; intro H; [reflexivity|].
+  rewrite (H a (or_introl eq_refl)). apply IH. intros x Hx. apply H. right; exact Hx.
+Qed.
+
+Lemma filter_none_all {A} (p : A -> bool) l : filter p l = [] -> filter (fun x => negb (p x)) l = l.
+Proof.
+  induction l as [|a l IH]; simpl; intro H; [reflexivity|].
+  destruct (p a); [discriminate|]. simpl. f_equal. apply IH. exact H.
+Qed.
+
+Lemma filter_split_perm {A} (p : A -> bool) l :
+  Permutation (filter (fun x => negb (p x)) l ++ filter p l) l.
+Proof.
+  induction l as [|a l IH]; simpl; [constructor|].
+  destruct (p a); simpl.
+  - apply Permutation_sym, Permutation_cons_app, Permutation_sym. exact IH.
+  - constructor. exact IH.
+Qed.
+
+(* names are unique, so removeCallback removes at most one callback *)
+Lemma unique_name_filter n l b0 bt :
+  NoDup (names lower l) -> filter (name_is lower n) l = b0 :: bt -> bt = [].
+Proof.
+  induction l as [|a l IH]; simpl; intros Hnd E; [discriminate|].
+  inversion Hnd as [|? ? Hna Hnd']; subst.
+  destruct (name_is lower n a) eqn:Ea.
+  - inversion E; subst. apply filter_all_false. intros x Hx.
+    destruct (name_is lower n x) eqn:Ex; [|reflexivity]. exfalso. apply Hna.
+    unfold name_is in *. apply seq_eqb_eq in Ea, Ex. rewrite Ea, <- Ex.
+    unfold names. apply (in_map (fun c => lower (cname c))). exact Hx.
+  - apply IH; assumption.
+Qed.
+
+(* decidable: putting the removed callback back is accepted (its constraints are acyclic) *)
+Definition readd_dom (s : st) (n : str) : bool :=
+  match filter (name_is lower n) (s_cbs s) with
+  | [] => true
+  | b :: _ =>
+      match snd (add_callback lower id_oracle (filter (fun x => negb (name_is lower n x)) (s_cbs s)) b) with
+      | Ok _ => true
+      | Raise _ => false
+      end
+  end.
+
+Lemma failed_import_reload_keeps s n imp initf dief o :
+  perm_oracle o -> wf_st lower s -> imp <> 0 -> readd_dom s n = true ->
+  forall s' r, owner_reload lower world s n imp initf dief o = (s', r) ->
+  r <> Ok 0 /\ Permutation (s_cbs s') (s_cbs s).
+Proof.
+  intros Ho Hw Himp Hd s' r E. unfold owner_reload in E.
+  destruct (is_owner lower n).
+  { inversion E; subst. split; [discriminate|apply Permutation_refl]. }
+  unfold remove_callback in E. rewrite partition_filter in E. unfold readd_dom in Hd.
+  set (good := filter (fun x => negb (name_is lower n x)) (s_cbs s)) in *.
+  destruct (filter (name_is lower n) (s_cbs s)) as [|b0 bt] eqn:Eb.
+  { inversion E; subst. split; [discriminate|]. simpl. unfold good.
+    rewrite (filter_none_all _ _ Eb). apply Permutation_refl. }
+  assert (bt = []) by (eapply unique_name_filter; [apply Hw|exact Eb]). subst bt.
+  assert (HP : Permutation (good ++ [b0]) (s_cbs s)).
+  { rewrite <- Eb. apply filter_split_perm. }
+  assert (Hnd : NoDup (ids (good ++ [b0]))).
+  { eapply Permutation_NoDup; [apply Permutation_map, Permutation_sym, HP|apply Hw]. }
+  assert (Hacc : snd (add_callback lower o good b0) = Ok tt).
+  { apply (add_callback_accept_indep lower id_oracle o good b0 id_oracle_perm Ho Hnd).
+    destruct (snd (add_callback lower id_oracle good b0)) as [[]|]; [reflexivity|discriminate]. }
+  pose proof (add_callback_spec lower o Ho good b0 Hnd) as S. cbv zeta in S.
+  assert (Hre : exists l', readd lower o good [b0] = (l', Ok tt) /\ Permutation l' (s_cbs s)).
+  { simpl. destruct (add_callback lower o good b0) as [l' [[]|e]]; simpl in Hacc; [|discriminate].
+    exists l'. split; [reflexivity|]. destruct S as [_ [HP' _]].
+    eapply Permutation_trans; eauto. }
+  destruct Hre as [l' [Er HPl]].
+  unfold load_plugin_module in E. destruct (find_spec lower world n) as [p|].
+  - destruct imp as [|[q|q|]]; [congruence| | |]; rewrite Er in E; inversion E; subst;
+      (split; [discriminate|exact HPl]).
+  - rewrite Er in E. inversion E; subst. split; [discriminate|exact HPl].
 Qed.
 End Failure.
 
-(* ---------- witnesses on the pinned code (ASCII fold, identity oracle) ---------- *)
-Definition s_ (x : list N) : str := x.
+(* ---------- concrete runs (ASCII fold, identity oracle) ---------- *)
 Definition nOwner : str := [79; 119; 110; 101; 114].
 Definition nMisc : str := [77; 105; 115; 99].
 Definition nAlpha : str := [65; 108; 112; 104; 97].
@@ -61,56 +121,60 @@ Definition nS : str := [83].
 Definition w_reload : list pspec := [P nOwner 1 [] [] []; P nAlpha 0 [] [] [[99]]].
 Definition ops_reload : list op := [Boot nOwner id_oracle; Load nAlpha 0 false id_oracle].
 
-(* reload with a raising constructor: Alpha was registered, the command fails, Alpha is gone *)
+(* still violated (known finding C20.F21, the part left unrepaired): reload with a raising
+   constructor -- Alpha was registered, the command fails, Alpha is gone *)
 Lemma reload_refuted :
   let s := steps lower_ascii w_reload st0 ops_reload in
   let '(s', r) := owner_reload lower_ascii w_reload s nAlpha 0 true false id_oracle in
   map cname (s_cbs s) = [nOwner; nAlpha] /\ r = Raise OtherError /\ map cname (s_cbs s') = [nOwner].
 Proof. vm_compute. repeat split. Qed.
 
-(* non-ImportError at import, and die() raising: same loss *)
-Lemma reload_refuted_import :
+(* non-vacuity of failed_import_reload_keeps: a non-ImportError at import now keeps Alpha *)
+Lemma reload_import_example :
   let s := steps lower_ascii w_reload st0 ops_reload in
+  readd_dom lower_ascii s nAlpha = true /\
   let '(s', r) := owner_reload lower_ascii w_reload s nAlpha 2 false false id_oracle in
-  r = Raise OtherError /\ map cname (s_cbs s') = [nOwner].
+  r = Raise OtherError /\ map cname (s_cbs s') = [nOwner; nAlpha].
+Proof. vm_compute. repeat split. Qed.
+
+(* reload after a reload that failed with ImportError: works again (was finding C20.F24) *)
+Definition ops_reload2 : list op :=
+  [Boot nOwner id_oracle; Load nAlpha 0 false id_oracle; Reload nAlpha 1 false false id_oracle].
+Lemma reload_after_importerror_example :
+  let s := steps lower_ascii w_reload st0 ops_reload2 in
+  let '(s', r) := owner_reload lower_ascii w_reload s nAlpha 0 false false id_oracle in
+  map cname (s_cbs s) = [nOwner; nAlpha] /\ r = Ok 0 /\ map cname (s_cbs s') = [nOwner; nAlpha].
 Proof. vm_compute. repeat split. Qed.
 
 Definition w_cyc : list pspec := [P nOwner 1 [] [] []; P nMisc 2 [] [] []; P nAlpha 0 [nOwner] [] []].
 Definition ops_cyc : list op := [Boot nOwner id_oracle; Boot nMisc id_oracle].
 
-(* cyclic load: outside load_dom, the command fails, and Alpha is registered behind Misc *)
-Lemma cyclic_load_refuted :
+(* non-vacuity of failed_load_keeps: a cyclic load fails and leaves the list as it was (was C20.F22) *)
+Lemma cyclic_load_example :
   let s := steps lower_ascii w_cyc st0 ops_cyc in
   let '(s', r) := owner_load lower_ascii w_cyc s nAlpha 0 false id_oracle in
-  load_dom lower_ascii w_cyc s nAlpha = false /\ r = Raise AssertionError /\
-  map cname (s_cbs s') = [nOwner; nMisc; nAlpha].
+  r = Raise AssertionError /\ map cname (s_cbs s') = [nOwner; nMisc].
 Proof. vm_compute. repeat split. Qed.
 
-(* reload after a reload that failed with ImportError (and restored the plugin): the module was
-   popped from sys.modules, so even a now-correct plugin is lost with KeyError (finding F24) *)
-Definition ops_reload2 : list op :=
-  [Boot nOwner id_oracle; Load nAlpha 0 false id_oracle; Reload nAlpha 1 false false id_oracle].
-Lemma reload_after_importerror_refuted :
-  let s := steps lower_ascii w_reload st0 ops_reload2 in
-  let '(s', r) := owner_reload lower_ascii w_reload s nAlpha 0 false false id_oracle in
-  map cname (s_cbs s) = [nOwner; nAlpha] /\ r = Raise KeyError /\ map cname (s_cbs s') = [nOwner].
-Proof. vm_compute. repeat split. Qed.
-
-(* non-vacuity of load_dom / accepted loads *)
-Lemma load_dom_example :
+Lemma load_example :
   let s := steps lower_ascii w_reload st0 [Boot nOwner id_oracle] in
-  load_dom lower_ascii w_reload s nAlpha = true /\
   map cname (s_cbs (fst (owner_load lower_ascii w_reload s nAlpha 0 false id_oracle))) = [nOwner; nAlpha].
-Proof. vm_compute. split; reflexivity. Qed.
+Proof. vm_compute. reflexivity. Qed.
 
-(* self-reference: S declares itself before A0 (and S), the add succeeds, S is behind A0 *)
+(* self-reference: S names itself (and A0) in callBefore: rejected, list unchanged (was C20.F23) *)
 Definition cA0 : cb := Cb 0 nA0 0 [] [] [].
 Definition cS : cb := Cb 1 nS 0 [nS; nA0] [] [].
-Lemma selfref_refuted :
-  no_selfref lower_ascii [cA0; cS] cS = false /\
-  add_callback lower_ascii id_oracle [cA0] cS = ([cA0; cS], Ok tt) /\
-  In nA0 (cbefore cS) /\ get_callback lower_ascii [cA0; cS] nA0 = Some cA0.
-Proof. vm_compute. repeat split. right; left; reflexivity. Qed.
+Lemma selfref_example :
+  selfref_b lower_ascii [cA0; cS] cS = true /\
+  add_callback lower_ascii id_oracle [cA0] cS = ([cA0], Raise AssertionError).
+Proof. vm_compute. split; reflexivity. Qed.
+
+(* non-vacuity of the declared-order theorems: B declares callBefore A0 and is put first *)
+Definition cB : cb := Cb 1 nS 0 [nA0] [] [].
+Lemma declared_before_example :
+  add_callback lower_ascii id_oracle [cA0] cB = ([cB; cA0], Ok tt) /\
+  get_callback lower_ascii ([cA0] ++ [cB]) nA0 = Some cA0.
+Proof. vm_compute. split; reflexivity. Qed.
 
 (* non-vacuity of the history theorems: a reachable state is wf_st and has Owner at the head,
    and the identity oracle is a permutation oracle (id_oracle_perm above) *)
